@@ -70,7 +70,8 @@ type Result struct {
 	Incomplete     string           `json:"incomplete,omitempty"`
 	HarnessError   string           `json:"harness_error,omitempty"`
 	WallMS         int64            `json:"wall_ms"`
-	Projections    int64            `json:"projections,omitempty"` // projection replays of the Env differential oracle
+	Projections    int64            `json:"projections,omitempty"`  // projection replays of the Env differential oracle
+	Opaque         []string         `json:"opaque_types,omitempty"` // "write T" / "safe T": dynamic types the opaque-object hooks met
 	Shard          int              `json:"shard"`
 	Shards         int              `json:"shards"`
 }
@@ -616,6 +617,7 @@ func Explore(sc *Scenario, o Options) *Result {
 		}
 		sort.Slice(res.Findings, func(i, j int) bool { return res.Findings[i].Signature < res.Findings[j].Signature })
 		res.DistinctTraces = len(e.traces)
+		res.Opaque = OpaqueTypesSeen()
 		if len(e.traces) <= 200000 {
 			for h := range e.traces {
 				res.TraceHashes = append(res.TraceHashes, h)
